@@ -198,3 +198,22 @@ class MutateFamily(Family):
         for op, rec in zip(sc["ops"], py[1:]):
             tag = rec["r"][0]
             ctx.count(f"op:{op[0]}:" + (tag if tag != "err" else "err:" + rec["r"][1][0]))
+
+
+class BuilderFamily(Family):
+    name = "b"
+
+    def gen(self, rng, profile):
+        import gen_bld
+        return gen_bld.gen_builder(rng)
+
+    def observe(self, sc):
+        from observe import observe_builder
+        return observe_builder(sc)
+
+    def nontrivial(self, sc, py):
+        return any(r[0] == "res" and r[1] for r in py) and any(r[0] == "str" for r in py)
+
+    def classify(self, ctx, sc, py):
+        for op, rec in zip(sc["ops"], py):
+            ctx.count(f"op:{op[0]}:{rec[0]}" + (":" + rec[1] if rec[0] == "err" else ""))
